@@ -676,6 +676,16 @@ class Constraints:
                 ):
                     resolved = False
                     for arg in self.origin_type.__args__:
+                        if isinstance(arg, ForwardRef):
+                            if arg.__forward_evaluated__:
+                                arg = arg.__forward_value__
+                            else:
+                                # Optional['T'] / Union['T', ...] with T not defined yet:
+                                # the member's type can only be judged once it is resolved
+                                resolved = True
+                                break
+                        if not isinstance(arg, type):
+                            continue
                         if {arg, _t} in TYPE_EXACT_TOLERANCE:
                             resolved = True
                             break
